@@ -1,6 +1,8 @@
 (* Correspondence for C20: the model of Model/Versioning.v run on a history,
    compared after every step with the real SQLObject: outcome, the raw master
-   and version tables, and what master.versions returns for every master. *)
+   and version tables, and what master.versions returns for every master
+   still alive; for nextVersion() / getChangedFields() the outcome IS the
+   answer (the version or master returned, the list of columns). *)
 From Coq Require Import List ZArith NArith Bool.
 From Lib Require Import CorrLib.
 From Model Require Import Events Versioning.
@@ -25,14 +27,17 @@ Definition exn_eqb (a b : exn) : bool :=
 Definition tbl_eqb (a b : list (Z * kwargs)) : bool :=
   list_eqb (fun p q => Z.eqb (fst p) (fst q) && kw_eqb (snd p) (snd q)) a b.
 
+Definition vrow_eqb (a b : vrow) : bool :=
+  Z.eqb (v_id a) (v_id b) && Z.eqb (v_master a) (v_master b) && kw_eqb (v_vals a) (v_vals b).
 Definition voutcome_eqb (a b : voutcome) : bool :=
   match a, b with
   | VDone, VDone | VNoHandle, VNoHandle => true
   | VExn x, VExn y => exn_eqb x y
+  | VNextV x, VNextV y => vrow_eqb x y
+  | VNextM m r, VNextM m' r' => Z.eqb m m' && kw_eqb r r'
+  | VFields l, VFields l' => list_eqb col_eqb l l'
   | _, _ => false
   end.
-Definition vrow_eqb (a b : vrow) : bool :=
-  Z.eqb (v_id a) (v_id b) && Z.eqb (v_master a) (v_master b) && kw_eqb (v_vals a) (v_vals b).
 
 (* One observed step.  The raw version table is transmitted as a delta (the
    harness checks that the previous rows are unchanged, otherwise it sends the
